@@ -19,6 +19,14 @@ CLAIMS = {
              'entry / sticky streaming state after a failed encode. Decides code shape, not runtime ack histories.',
         note='Not decided: contents of the returned acknowledgement, id wrap-around histories as such (only the cell invariant), liveness.',
         ref='DESIGN.md section 5 C06'),
+    'C11': dict(
+        technique='MIR pairing / must-pass-through rules on the in-flight id set (static analysis)',
+        text='Static pairing rules over the four dispatchers: insert of the packet id dominates every handler/control invocation (or the packet has no id); the '
+             'duplicate edge reaches no handler and produces the version-specific refusal (constants compared by value); each final acknowledgement built locally is '
+             'paired with a remove of the id, a QoS 2 PUBREC is not, removes happen only after the handler future completed; v5 control_pkt receives the request id for '
+             'SUBSCRIBE/UNSUBSCRIBE/PUBREL; PUBREL consults the set and the unknown-id edge never reaches the control service.',
+        note='Not decided: id histories as such (reuse after acknowledgement follows from the pairing, not from executing histories).',
+        ref='DESIGN.md section 5 C11'),
 }
 
 NA_REASONS = {}
